@@ -38,11 +38,15 @@ def classify(detail):
     loc = loc.group(1) if loc else ""
     via = via.group(1) if via else ""
     if ev == "KRecv":
-        if re.search(r"ready \|-> FALSE", detail):
+        sa = re.search(r"sigAt \|-> (\d+)", detail)
+        ea = re.search(r"evalAt \|-> (\d+)", detail)
+        if sa and ea and int(ea.group(1)) < int(sa.group(1)) and loc in ("Q", "QM"):
+            cls = "C03"          # sent on a readiness evaluation older than the RDY change / CLS / pause
+        elif re.search(r"ready \|-> FALSE", detail):
             cls = "C03"          # delivered without a positive readiness evaluation (RDY / pause)
-        elif loc == "Gone" and via in ("emptied", "deleted"):
+        if cls == "C02" and loc == "Gone" and via in ("emptied", "deleted"):
             cls = "C08"          # a discarded message came back
-        elif loc == "Fin":
+        if loc == "Fin":
             cls = "C02"          # FIN was not final
     if ev == "TTake" and re.search(r'paused \|-> "yes"', detail):
         cls = "C03"
@@ -73,14 +77,42 @@ def drive(ctx, mode, runs, procs=None, extra=None):
                                       stderr=subprocess.PIPE, text=True), rep))
     results = []
     for pr, rep in jobs:
-        try:
-            out, err = pr.communicate(timeout=1500)
-        except subprocess.TimeoutExpired:
-            pr.kill()
-            raise Inconclusive("core harness (%s) timed out" % mode)
-        if not os.path.exists(rep):
-            raise Inconclusive("core harness (%s) produced no report (rc=%s):\n%s" % (mode, pr.returncode, (out + err)[-3000:]))
-        R = json.load(open(rep))
+        attempts = 0
+        while True:
+            try:
+                out, err = pr.communicate(timeout=1500)
+            except subprocess.TimeoutExpired:
+                pr.kill()
+                raise Inconclusive("core harness (%s) timed out" % mode)
+            if os.path.exists(rep):
+                R = json.load(open(rep))
+                break
+            # the harness died: if the in-process nsqd panicked that is an observation about nsqd, and the
+            # remaining scenarios of this lane are run by a new process
+            panic = "panic:" in err or "fatal error:" in err
+            if not panic or attempts > 6 or not os.path.exists(rep + ".progress"):
+                raise Inconclusive("core harness (%s) produced no report (rc=%s):\n%s" % (mode, pr.returncode, (out + err)[-3000:]))
+            attempts += 1
+            idx = int(open(rep + ".progress").read().strip())
+            part = json.load(open(rep + ".partial")) if os.path.exists(rep + ".partial") else {"runs": []}
+            results.extend(part.get("runs") or [])
+            frames = [l.strip() for l in err.splitlines() if "nsqio/nsq/nsqd" in l and "(" in l]
+            head = [l for l in err.splitlines() if l.startswith("panic:") or l.startswith("fatal error:")]
+            cls = "C05" if mode == "restart" else "C08"
+            results.append({"scenario": "mode=%s scenario #%d (process died)" % (mode, idx), "events": 0, "published": 0,
+                            "acked": 0, "snapshots": 0, "trace": "", "inconclusive": "",
+                            "fails": ["[%s] the daemon panicked: %s | %s" % (cls, (head or ["?"])[0][:200], " | ".join(frames[:4])[:500])]})
+            cmd = list(pr.args)
+            fi, ri = cmd.index("--first"), cmd.index("--runs")
+            last = int(cmd[fi + 1]) + int(cmd[ri + 1])
+            if idx + 1 >= last:
+                R = {"runs": [], "shapes": {}, "samples": []}
+                break
+            cmd[fi + 1], cmd[ri + 1] = str(idx + 1), str(last - idx - 1)
+            for f in (rep + ".progress", rep + ".partial"):
+                if os.path.exists(f):
+                    os.unlink(f)
+            pr = subprocess.Popen(cmd, cwd=ctx.scratch, env=ctx.goenv(), stdout=subprocess.PIPE, stderr=subprocess.PIPE, text=True)
         results.extend(R["runs"])
         for k, v in R.get("shapes", {}).items():
             ctx.notes.setdefault("event_kinds", {})
